@@ -17,6 +17,8 @@ import YadismModel.Generated.Kernels
 import YadismModel.Model.Norm
 import YadismModel.Model.Dispatch
 import YadismModel.Generated.Dispatch
+import YadismModel.Model.TMC
+import YadismModel.Generated.TMC
 
 open Yadism Yadism.Proto
 
@@ -316,6 +318,53 @@ def rdKeval : RdM String := do
     | some v => pure (toString v.toBits)
     | none => pure "undefined"
 
+/-- `tmcval kind mode x Q2 M2`: the shifted kinematics and every coefficient of the generated
+formula, evaluated in `Float`: `mu rho xi n {symbol bits}…` -/
+def rdTmcval : RdM String := do
+  let kind ← tok
+  let mode ← tok
+  let x ← flt
+  let q2 ← flt
+  let m2 ← flt
+  let nan : Float := 0.0 / 0.0
+  let mk (ps : List (String × Float)) : KExpr.FEnv := KExpr.FEnv.mk nan #[]
+      (fun _ => nan) (fun n => ((ps.find? fun c => c.1 == n).map (·.2)).getD nan) []
+  let base := [("x", x), ("Q2", q2), ("M2", m2)]
+  match Yadism.Gen.tmc_mu.evalF (mk base) with
+  | none => pure "undefined"
+  | some mu =>
+  match Yadism.Gen.tmc_rho.evalF (mk (("mu", mu) :: base)) with
+  | none => pure "undefined"
+  | some rho =>
+  match Yadism.Gen.tmc_xi.evalF (mk (("rho", rho) :: ("mu", mu) :: base)) with
+  | none => pure "undefined"
+  | some xi =>
+  let env := mk (("xi", xi) :: ("rho", rho) :: ("mu", mu) :: base)
+  match Yadism.Gen.tmcTable.find? (fun e => e.1 == kind && e.2.1 == mode) with
+  | none => pure "unknown-formula"
+  | some (_, _, ents) =>
+    let parts := ents.map fun (s, e) =>
+      s.name ++ " " ++ (match e.evalF env with | some v => toString v.toBits | none => "undefined")
+    pure (s!"{mu.toBits} {rho.toBits} {xi.toBits} {ents.length} " ++ " ".intercalate parts)
+
+/-- `convfx n grid… xi {below w F}…` : the loop of `_convolve_FX` on exact rationals -/
+def rdConvfx : RdM String := do
+  let n ← nat
+  let mut grid : List Rat := []
+  for _ in [0:n] do
+    let g ← rat
+    grid := grid ++ [g]
+  let xi ← rat
+  let mut bs : Array Bool := #[]
+  let mut ws : Array Rat := #[]
+  let mut fs : Array Rat := #[]
+  for _ in [0:n] do
+    let b ← bool; let w ← rat; let f ← rat
+    bs := bs.push b; ws := ws.push w; fs := fs.push f
+  match convolveFX grid (fun j => bs.getD j false) (fun j => ws.getD j 0) (fun j => fs.getD j 0) xi with
+  | none => pure "rejected"
+  | some v => pure (showRat v)
+
 /-- `kinfo name` : size, maxArg, usesZ -/
 def rdKinfo : RdM String := do
   let name ← tok
@@ -424,6 +473,8 @@ def handle (op : String) : RdM String := do
       | _, _ => pure "unknown-kernel"
   | "keval" => rdKeval
   | "kinfo" => rdKinfo
+  | "tmcval" => rdTmcval
+  | "convfx" => rdConvfx
   | "update" => do   -- compatibility.update: update <theory card> <obs card>
       let t ← rdCard
       let o ← rdCard
